@@ -751,10 +751,12 @@ class Path:
         return Path(new_t)
 
     def __repr__(self):
-        return _format_path(self.path_t.__ops__[1:])
+        return _format_path(self.path_t.__ops__[1:], self.path_t.__ops__[0])
 
 
-def _format_path(t_path):
+def _format_path(t_path, root=None):
+    if root is None:
+        root = T
     path_parts, cur_t_path = [], []
     i = 0
     while i < len(t_path):
@@ -772,10 +774,16 @@ def _format_path(t_path):
         path_parts.append(cur_t_path)
 
     if path_parts or not cur_t_path:
-        return 'Path(%s)' % ', '.join([_format_t(part)
-                                       if type(part) is list else repr(part)
-                                       for part in path_parts])
-    return _format_t(cur_t_path)
+        formatted = [_format_t(part)
+                     if type(part) is list else repr(part)
+                     for part in path_parts]
+        if root is not T:  # S- or A-rooted path: the root is the first argument
+            if path_parts and type(path_parts[0]) is list:
+                formatted[0] = _format_t(path_parts[0], root)
+            else:
+                formatted.insert(0, _format_t([], root))
+        return 'Path(%s)' % ', '.join(formatted)
+    return _format_t(cur_t_path, root)
 
 
 class Spec:
@@ -1741,7 +1749,7 @@ def _format_t(path, root=T):
             args, kwargs = arg
             prepr.append(format_invocation(args=args, kwargs=kwargs, repr=bbrepr))
         elif op == 'P':
-            return _format_path(path)
+            return _format_path(path, root)
         elif op == 'x':
             prepr.append(".__star__()")
         elif op == 'X':
